@@ -31,7 +31,7 @@ pub static DEF: ScenDef = ScenDef {
 fn budget(_prop: &str, tier: Tier) -> u64 {
     match tier {
         Tier::Quick => 3_000,
-        Tier::Thorough => 120_000,
+        Tier::Thorough => 80_000,
     }
 }
 
@@ -321,7 +321,7 @@ fn exec(ctx: &mut RunCtx, w: &mut World, op: &Op) -> Step<()> {
             let b = w.cur.clone();
             let nbits = b.len() * 8;
             let mut r = Rng::new(*sample_seed);
-            let all = b.len() <= 256;
+            let all = b.len() <= if ctx.tier == Tier::Thorough { 512 } else { 256 };
             let count = if all { nbits } else { 2048 };
             for i in 0..count {
                 let bit = if all { i } else { r.below(nbits) };
